@@ -218,8 +218,34 @@ def _run(case, obs, keep_re):
     obs.plog = plog
     seg = {"i": -1}
 
+    # "doc_puts": a document consumer that updates a signal from inside its callback (a slow or device-touching
+    # consumer): [{"on": "stop", "nth": 1, "sig": "s1", "value": 7.0}] -- recorded like a loop-thread `put` injection
+    doc_puts = [dict(d, seen=0) for d in (reopts.get("doc_puts") or [])]
+
     def spy(name, doc):
         obs.docs.append((name, doc, len(obs.hook)))
+        nm = getattr(name, "name", str(name))
+        for dp in doc_puts:
+            if dp["on"] != nm:
+                continue
+            dp["seen"] += 1
+            if dp["seen"] != int(dp.get("nth", 1)):
+                continue
+            inj = {"do": "put", "sig": dp["sig"], "value": dp["value"], "on_doc": nm}
+            obs.injected.append(
+                {
+                    "inj": inj,
+                    "k": -2,
+                    "hook_index": len(obs.hook),
+                    "state": str(RE.state),
+                    "open_runs": sum(1 for b in RE._run_bundlers.values() if b.run_is_open),
+                    "total": loop.total,
+                    "seg": seg["i"],
+                    "vtime": loop.time(),
+                    "ledger": len(world.ledger),
+                }
+            )
+            world.devices[dp["sig"]].put(dp["value"])
 
     RE.subscribe(spy)
 
